@@ -2,7 +2,12 @@
     of the election record kept in the Drummer DB (db.go applyKVUpdate /
     handleKVLookup for key "election-key", a non-finalized KV).
 
-    Model only (Definitions / Fixpoints); proofs are in proofs/ElectionProofs.v.
+    Model only (Definitions / Fixpoints).  The predicates the C14 theorems are
+    stated with are in ElectionSpec.v, the agreement predicates evaluated by the
+    correspondence check in ElectionRun.v, the proofs in proofs/ElectionProofs.v
+    (operation granularity, single turns), proofs/ElectionLiveProofs.v (turn
+    granularity: consistency of reachable states, stability, takeover) and
+    proofs/ElectionDBProofs.v ([cas] = DB.kv_update on the election record).
 
     Mirrors, line by line:
       db.go        applyKVUpdate (non-finalized record), handleKVLookup (absent key = zero KV)
